@@ -29,6 +29,9 @@ pub struct C15 {
     pub use_ctx: bool,
     /// after this many values, at a frame boundary with no read in flight: into_parts() + with_buffer() round trip
     pub rewrap_at: Option<u32>,
+    /// after the k-th interruption (cancellation or transient error) that leaves a payload partly read, lower max_len to the
+    /// largest payload of the frames still to come (only when max_len_mode == 0)
+    pub knob_mid: Option<u32>,
     pub src: Vec<Step>,
     pub caller: Vec<Decide>,
 }
@@ -121,6 +124,8 @@ impl<'s> FamVisitor for Runner<'s> {
             _ => {}
         };
         apply_knob(&mut reader, &self.obs);
+        let mut mid_interruptions = 0u32;
+        let later_max = |from: usize| payloads.iter().skip(from + 1).map(|p| p.len()).max().unwrap_or(0) as u32;
         let mut at_boundary = true; // no read has consumed bytes of a frame that was not returned yet
         let mut rewrapped = false;
         let mut caller = Caller::new(s.caller.clone());
@@ -198,6 +203,14 @@ impl<'s> FamVisitor for Runner<'s> {
                             o.probe(pb::double_cancel_same_frame)
                         }
                     }
+                    drop(o);
+                    if matches!(ph, Phase::Payload { .. }) && s.max_len_mode == 0 {
+                        if s.knob_mid == Some(mid_interruptions) {
+                            reader.set_max_len(later_max(got));
+                            self.obs.borrow_mut().probe(pb::max_len_changed_mid_run);
+                        }
+                        mid_interruptions += 1;
+                    }
                     continue;
                 }
                 Some(r) => r,
@@ -274,6 +287,14 @@ impl<'s> FamVisitor for Runner<'s> {
                     if returned_err[i] > served[i] {
                         fail!("a_transient_once", "error kind {k:?} reported {} times, source produced it {} times", returned_err[i], served[i]);
                     }
+                    let ph = core.borrow().phase();
+                    if matches!(ph, Phase::Payload { .. }) && s.max_len_mode == 0 {
+                        if s.knob_mid == Some(mid_interruptions) {
+                            reader.set_max_len(later_max(got));
+                            self.obs.borrow_mut().probe(pb::max_len_changed_mid_run);
+                        }
+                        mid_interruptions += 1;
+                    }
                 }
                 Res::Decode(e) => fail!("a_sequence", "frame {got} failed to decode ({e}) although it was written intact (torn)"),
                 Res::InvalidLen => fail!("a_sequence", "InvalidLen for frame {got} although max_len >= every written payload"),
@@ -338,6 +359,7 @@ impl Scenario for C15 {
             .set("max_len_mode", self.max_len_mode as u32)
             .set("use_ctx", self.use_ctx)
             .set("rewrap_at", self.rewrap_at)
+            .set("knob_mid", self.knob_mid)
             .set("src", lane_to_json(&self.src))
             .set("caller", decides_to_json(&self.caller))
     }
@@ -351,6 +373,7 @@ impl Scenario for C15 {
             max_len_mode: j.get("max_len_mode").and_then(|c| c.as_u64()).unwrap_or(0) as u8,
             use_ctx: j.get("use_ctx").and_then(|c| c.as_bool()).unwrap_or(false),
             rewrap_at: j.get("rewrap_at").and_then(|c| c.as_u64()).map(|c| c as u32),
+            knob_mid: j.get("knob_mid").and_then(|c| c.as_u64()).map(|c| c as u32),
             src: lane_from_json(j.get("src"))?,
             caller: decides_from_json(j.get("caller"))?,
         })
@@ -403,6 +426,9 @@ impl Scenario for C15 {
         }
         if self.rewrap_at.is_some() {
             out.push(C15 { rewrap_at: None, ..self.clone() });
+        }
+        if self.knob_mid.is_some() {
+            out.push(C15 { knob_mid: None, ..self.clone() });
         }
         if self.family != Ty::Str && self.family != Ty::U64 {
             // simpler payload type, same shapes of frames
@@ -457,7 +483,7 @@ fn stream_len(values: &[ValSpec]) -> usize {
 }
 
 fn base(family: Ty, values: Vec<ValSpec>) -> C15 {
-    C15 { family, values, cut: None, init_buf: 0, max_len_mode: 0, use_ctx: false, rewrap_at: None, src: vec![], caller: vec![] }
+    C15 { family, values, cut: None, init_buf: 0, max_len_mode: 0, use_ctx: false, rewrap_at: None, knob_mid: None, src: vec![], caller: vec![] }
 }
 
 fn generate_single(r: &mut Rng, tier: Tier) -> C15 {
@@ -541,6 +567,7 @@ fn generate_single(r: &mut Rng, tier: Tier) -> C15 {
         max_len_mode: if r.chance(1, 4) { 1 + r.below(2) as u8 } else { 0 },
         use_ctx: r.chance(1, 8),
         rewrap_at: if r.chance(1, 6) { Some(r.below(nframes as u64 + 1) as u32) } else { None },
+        knob_mid: if r.chance(1, 4) { Some(r.below(3) as u32) } else { None },
         src,
         caller,
     }
